@@ -12,6 +12,7 @@ import UtreexoVerif.Driver.Alias
 import UtreexoVerif.Driver.Conc
 import UtreexoVerif.Driver.ConcLin
 import UtreexoVerif.Driver.PollardHeap
+import UtreexoVerif.Driver.Sparse
 
 namespace UtreexoVerif.Driver
 open Std
@@ -55,6 +56,9 @@ def handleLine (line : String) : M Unit := do
   | ["conctable"] => handleConcTable line
   | "conclin" :: rest => handleConcLin line rest
   | "ph" :: rest => handlePH line rest
+  | "sforest" :: rest => handleSForest line rest
+  | "sverify" :: rest => handleSVerify line rest
+  | "sexpect" :: rest => handleSExpect line rest
   | _ => parseError line
 
 partial def loop (h : IO.FS.Stream) : M Unit := do
